@@ -76,7 +76,7 @@ func init() {
 		seeds := []string{"empty", "inline", "twolevel"}
 		if tier == "thorough" {
 			n = 6
-			seeds = []string{"empty", "inline", "leaf", "twolevel", "threelevel", "overflow"}
+			seeds = []string{"empty", "inline", "leaf", "twolevel", "threelevel", "overflow", "bigkeys"}
 		}
 		return mk("c04-flat", seeds, cfgs(tier), n, 2, flatAlphabet([]string{"a", "b", "L1"}, []string{"s", "X"}, true), boundaryC04)
 	}
